@@ -17,7 +17,7 @@ from . import common
 from .common import log, ToolError
 
 EXE = "pvh_pipeline"
-RUN_FORMAT = 13     # bump when the way cases are assembled / rendered in this file changes
+RUN_FORMAT = 16     # bump when the way cases are assembled / rendered in this file changes
 THREADS = os.environ.get("PVH_THREADS", "6")
 TLC_WORKERS = int(os.environ.get("PIPELINE_TLC_WORKERS", "4"))
 
@@ -488,6 +488,55 @@ def _render_rettype(cell, exp):
     return mods, fault
 
 
+def _render_joinstr(cell, exp):
+    n, layout, ctx = cell["parts"], cell["layout"], cell["ctx"]
+    head = "fn sink(x: i32)\n{\n}\n\nfn calc() -> i32\n{\n"
+    pre = {"arg": "\tsink(", "ret": "\treturn: ", "init": "\tvar r: i32 = "}[ctx]
+    post = {"arg": ");\n\treturn: 1\n}\n", "ret": "\n}\n", "init": ";\n\treturn: r\n}\n"}[ctx]
+    text = head + pre
+    start = len(text)
+    pieces = ["\"part %d \"" % k for k in range(1, n + 1)]
+    text += ("\n\t\t" if layout == "lines" else " ").join(pieces)
+    end = len(text)
+    line = text[:start].count("\n") + 1
+    text += post
+    fault = {"m": 1, "code": exp["code"], "file": "join.pn", "start": start, "end": end, "line": line, "crlf": False,
+             "parts": [{"start": start, "end": end, "whole": True}]}
+    return text, fault
+
+
+def _render_target(cell):
+    what, a, b = cell["what"], cell["a"], cell["b"]
+    if what == "cast":
+        src = "fn conv(v: %s) -> %s\n{\n\treturn: v as %s\n}\n\nfn main() -> i32\n{\n\tvar x: %s = 5;\n\tvar y: %s = conv(x);\n\tvar r: i32 = 0;\n\tif y == 5\n\t{\n\t\tr = 1;\n\t}\n\treturn: r\n}\n" % (a, b, b, a, b)
+    elif what == "lit":
+        n = 0x0D0A1B2C if a in ("u32", "usize") else 0x0D0A1B2C3D4E5F
+        text = {"dec": "%d", "hex": "0x%X", "bin": "0b%s"}[b] % (n if b != "bin" else bin(n)[2:])
+        place = cell["place"]
+        decl = "struct Header\n{\n\tmagic: %s,\n\tversion: i32,\n}\n\n" % a
+        if place == "var":
+            body, top = "\tvar v: %s = %s;\n\tvar w: %s = v;\n" % (a, text, a), ""
+        elif place == "member":
+            body, top = "\tvar h: Header = Header { magic: %s, version: 2 };\n\tvar w: %s = h.magic;\n" % (text, a), decl
+        elif place == "elem":
+            body, top = "\tvar t: [2]%s = [%s, 1];\n\tvar w: %s = t[0];\n" % (a, text, a), ""
+        elif place == "nested":
+            body, top = "\tvar t: [2][2]%s = [[%s, 1], [2, %s]];\n\tvar w: %s = t[1][1];\n" % (a, text, text, a), ""
+        elif place == "const":
+            body, top = "\tvar w: %s = K;\n" % a, "const K: %s = %s;\n\n" % (a, text)
+        else:
+            body, top = "\tvar w: %s = KH.magic;\n" % a, decl + "const KH: Header = Header { magic: %s, version: 2 };\n\n" % text
+        src = top + "fn main() -> i32\n{\n" + body + "\tvar r: i32 = 0;\n\tif w == %d\n\t{\n\t\tr = 1;\n\t}\n\treturn: r\n}\n" % n
+    else:
+        ty = {"ptr": "&u8", "ptrarray": "[5]&i64", "ptrstruct": "Link", "usize": "usize", "usizearray": "[3]usize", "mixed": "Table"}[a]
+        top = "struct Link\n{\n\tnext: &Link,\n\ttag: i32,\n}\n\nstruct Table\n{\n\tcount: usize,\n\trows: [2]&i32,\n\tflag: u8,\n}\n\n"
+        if b == "const":
+            src = top + "const SIZE: usize = |:%s|;\n\nfn main() -> usize\n{\n\treturn: SIZE\n}\n" % ty
+        else:
+            src = top + "fn main() -> usize\n{\n\treturn: |:%s|\n}\n" % ty
+    return [{"name": "target.pn", "src": src}], bool(cell["wasm"])
+
+
 def render_shape(case, idx):
     """A cell of spec/PipelineShapes.tla -> source text"""
     cell, exp = case["cell"], case["expect"]
@@ -505,6 +554,13 @@ def render_shape(case, idx):
             raise ToolError("size cell %s rendered as %d bytes" % (json.dumps(cell), len(src.encode())))
         mods = [{"name": "size.pn", "src": src}]
         origin = "size %s/%d" % (cell["pad"], cell["size"])
+    elif fam == "target":
+        mods, wasm = _render_target(cell)
+        origin = "target %s %s/%s%s%s" % (cell["what"], cell["a"], cell["b"], "/" + cell["place"] if "place" in cell else "", "/wasm" if wasm else "")
+    elif fam == "joinstr":
+        src, fault = _render_joinstr(cell, exp)
+        mods = [{"name": "join.pn", "src": src}]
+        origin = "joinstr x%d %s/%s" % (cell["parts"], cell["layout"], cell["ctx"])
     elif fam == "rettype":
         mods, fault = _render_rettype(cell, exp)
         origin = "rettype %s/%s/%s" % (cell["what"], cell["form"], cell["order"])
@@ -520,7 +576,7 @@ def render_shape(case, idx):
         origin = "sym %s/%s/%s%s" % (cell["flags"].replace(" ", "+") or "private", cell["kind"], cell["place"],
                                      "" if cell.get("twin", "none") == "none" else "/twin=" + cell["twin"].replace(" ", "+"))
     out = {"id": "shape%d" % idx, "kind": "shape:" + fam, "wasm": wasm, "mods": mods, "origin": origin}
-    if fam in ("chain", "rettype"):
+    if fam in ("chain", "rettype", "joinstr"):
         out["fault"] = fault
     if exp["t"] != "free":
         out["expect"] = {"t": exp["t"]}
